@@ -886,6 +886,11 @@ class Model:
                     elif variable.name() in alg_states:
                         del alg_states[variable.name()]
 
+                    else:
+                        # Already eliminated by an earlier equation, so keep this one
+                        reduced_equations.append(eq)
+                        continue
+
                     variables.append(variable)
                     values.append(value)
 
